@@ -6,6 +6,7 @@ cd /verif || exit 2
 ids=${@:-$(ls -d seeded/*/ | xargs -n1 basename)}
 for id in $ids; do
   d=seeded/$id
+  if python3 -c "import json,sys; sys.exit(0 if json.load(open('$d/meta.json')).get('obsolete') else 1)"; then echo "$id: OBSOLETE (no longer a breaking change, see meta.json)"; continue; fi
   checks=$(python3 -c "import json,sys; m=json.load(open('$d/meta.json')); print(' '.join(m.get('caught_by') or [m['property']]))")
   verdict=MISSED
   for c in $checks; do
